@@ -610,3 +610,79 @@ def stream_jellium(ctx):
 def run(ctx):
     return [stream_fermion(ctx), stream_helpers(ctx), stream_tensors(ctx), stream_reverse(ctx),
             stream_jellium(ctx)]
+
+
+# ---------------------------------------------------------------- replay of a recorded failing input
+
+def _op_from_json(of, cls, jop):
+    from common import dec_term, gq_to_complex
+    C = {'fermion': of.FermionOperator, 'qubit': of.QubitOperator}[cls]
+    op = C()
+    for t, c in jop:
+        op += C(dec_term(cls, t), gq_to_complex(c))
+    return op
+
+
+def _arr(lst, shape):
+    from common import gq_to_complex
+    return numpy.array([gq_to_complex(c) for c in lst], dtype=complex).reshape(shape)
+
+
+def impl_output(ctx, case):
+    """re-run the implementation on a recorded case -> protocol operator (or None if not replayable)"""
+    import importlib
+    from common import gq_to_complex, dec_term
+    of = ctx.of
+    jw = of.transforms.jordan_wigner
+    fn = case.get('fn')
+    if fn == 'jordan_wigner' and 'fermion' in case:
+        f = case['fermion']
+        if f and not isinstance(f[0][0], list) or (f and len(f) == 2 and isinstance(f[1], int)):
+            f = [[f[0], [f[1], 1, 0, 1]]]
+        return enc_op('qubit', jw(_op_from_json(of, 'fermion', f)).terms)
+    if fn == 'jordan_wigner' and 'majorana' in case:
+        f = case['majorana']
+        if len(f) == 2 and isinstance(f[1], int):
+            f = [[[[i, 0] for i in f[0]], [f[1], 1, 0, 1]]]
+        M = of.MajoranaOperator.from_dict({tuple(i for i, _ in t): gq_to_complex(c) for t, c in f})
+        return enc_op('qubit', jw(M).terms)
+    if fn == 'jordan_wigner' and 'interaction_operator' in case:
+        d = case['interaction_operator']
+        n = d['n']
+        iop = of.InteractionOperator(gq_to_complex(d['constant']), _arr(d['one'], (n, n)), _arr(d['two'], (n,) * 4))
+        return enc_op('qubit', jw(iop).terms)
+    if fn == 'jordan_wigner' and 'diagonal_coulomb' in case:
+        d = case['diagonal_coulomb']
+        n = d['n']
+        dch = of.DiagonalCoulombHamiltonian(_arr(d['one'], (n, n)), numpy.real(_arr(d['two'], (n, n))).copy(),
+                                            gq_to_complex(d['constant']).real)
+        return enc_op('qubit', jw(dch).terms)
+    jwmod = importlib.import_module('openfermion.transforms.opconversions.jordan_wigner')
+    if fn == 'jordan_wigner_one_body':
+        return enc_op('qubit', jwmod.jordan_wigner_one_body(case['p'], case['q'], gq_to_complex(case['c'])).terms)
+    if fn == 'jordan_wigner_two_body':
+        return enc_op('qubit', jwmod.jordan_wigner_two_body(*case['pqrs'], gq_to_complex(case['c'])).terms)
+    if fn == 'reverse_jordan_wigner':
+        return enc_op('fermion', of.transforms.reverse_jordan_wigner(_op_from_json(of, 'qubit', case['qubit'])).terms)
+    return None
+
+
+def replay(ctx, payload):
+    """True: the recorded input no longer fails; False: still fails; None: not replayable"""
+    v = payload.get('violation')
+    if not v:
+        return None
+    case, detail = v.get('input', {}), v.get('detail', {})
+    req = detail.get('request')
+    try:
+        out = impl_output(ctx, case)
+    except ERRS:
+        return False
+    if out is None or not req:
+        return None
+    req = dict(req)
+    if case.get('fn') == 'reverse_jordan_wigner':
+        req['A'] = ['op', out]
+    else:
+        req['Q'] = out
+    return bool(ctx.driver.one(req)['eq'])
